@@ -154,6 +154,7 @@ impl Property<'_> {
             | Property::SubscriptionIdentifierAvailable(value)
             | Property::SharedSubscriptionAvailable(value) => *value <= 1,
             Property::MaximumQoS(value) => *value <= 2,
+            Property::TopicAlias(value) => *value != 0,
             Property::SubscriptionIdentifier(value) => (1..=MQTT_VARINT_MAX).contains(value),
             _ => true,
         }
